@@ -631,6 +631,18 @@ func execC07(t *testing.T, p *sim.Program, c *sim.Ctx) {
 					}
 				}
 			case "c1":
+				if (rec.lay == 0 || rec.lay == 1) && len(rec.ct) > 65 && rec.ct[0] == 4 && op.Int(2)&1 == 1 {
+					// the hybrid point form 06 / 07 || x || y names the parity of y in its first octet (GB/T 32918.1 4.2.9): with the
+					// WRONG parity the octet string is not a point encoding under any reading, and the ciphertext must be refused
+					// (an implementation that does not support the hybrid form refuses both; the right parity is not judged)
+					m := append([]byte{}, rec.ct...)
+					m[0] = 6 + (1 - rec.ct[64]&1)
+					c.Hit("fault:c1-hybrid-form-with-wrong-parity")
+					if got, err := c07LibDecrypt(priv, rec.lay, m); err == nil {
+						c.Fail("invalid-ciphertext-accepted", i, op.K, "a ciphertext whose C1 is in the hybrid form %02x with the wrong parity of y decrypts (%d bytes returned)", m[0], len(got))
+						return
+					}
+				}
 				if op.Int(1)&7 >= 4 {
 					// the ASN.1 layout with the INTEGER of x1 (or y1, or both) replaced by its NEGATION in DER (two's complement):
 					// a structurally valid element, consistent lengths, a coordinate outside [0, p-1]
